@@ -62,7 +62,7 @@ def make_case(tier, seed, index):
     fam, var, tr = D.CONFIGS[ci]
     fill, fseed = FILLS[fi]
     return {"family": fam, "variant": var, "transport": tr, "fill": fill, "seed": (fseed + 17 * rep + seed * 131) & 0xFFFF,
-            "k": (index * 2654435761 + seed) & 0xFFFF, "history": h}
+            "k": (index * 2654435761 + seed) & 0xFFFF, "history": h, "debug_log": index % 9 == 4}
 
 
 def simplify(case):
